@@ -11,6 +11,7 @@ for seed in seeds:
     t = time.time()
     v = corpus.corpus(tier, seed)
     recs = {r["id"]: r for r in v["records"]}
+    before = len(keys)
     for i, cl in v["bad"]:
         r = recs[i]
         if cl == "C06.crash" and r["encoding"] not in popchecks.CONT_ENC:
@@ -19,7 +20,7 @@ for seed in seeds:
             keys[(cl, json.dumps(k, sort_keys=True))] += 1
     for k, e in popchecks.int_pairs(v["records"]).items():
         pairs[k][0] += e[0]; pairs[k][1] += e[1]; pairs[k][2].update(e[2])
-    print(f"# seed {seed}: {len(recs)} runs, {len(v['bad'])} verdicts, {time.time()-t:.0f}s", flush=True)
+    print(f"# seed {seed}: {len(recs)} runs, {len(v['bad'])} verdicts, {len(keys) - before} new keys (total {len(keys)}), {time.time()-t:.0f}s", flush=True)
 for (cl, k), n in sorted(keys.items()):
     print(n, cl, k)
 print("# integer-coded pairs failing in at least half of their runs")
